@@ -11,7 +11,7 @@ import random
 from . import common as C, progrun as R
 
 PROP = "C13"
-MODULES = ["RuschmProofs.C13", "RuschmProofs.C13More"]
+MODULES = ["RuschmProofs.C13", "RuschmProofs.C13More", "RuschmProofs.C13Sharing"]
 
 
 def scenario(rng):
